@@ -26,22 +26,38 @@ val sub : nat -> nat -> nat
 
 module Nat :
  sig
+  val sub : nat -> nat -> nat
+
   val eqb : nat -> nat -> bool
 
   val leb : nat -> nat -> bool
 
   val ltb : nat -> nat -> bool
+
+  val divmod : nat -> nat -> nat -> nat -> nat * nat
+
+  val div : nat -> nat -> nat
+
+  val modulo : nat -> nat -> nat
  end
+
+val hd : 'a1 -> 'a1 list -> 'a1
 
 val nth : nat -> 'a1 list -> 'a1 -> 'a1
 
 val nth_error : 'a1 list -> nat -> 'a1 option
 
+val last : 'a1 list -> 'a1 -> 'a1
+
 val map : ('a1 -> 'a2) -> 'a1 list -> 'a2 list
+
+val flat_map : ('a1 -> 'a2 list) -> 'a1 list -> 'a2 list
 
 val fold_left : ('a1 -> 'a2 -> 'a1) -> 'a2 list -> 'a1 -> 'a1
 
 val fold_right : ('a2 -> 'a1 -> 'a1) -> 'a1 -> 'a2 list -> 'a1
+
+val existsb : ('a1 -> bool) -> 'a1 list -> bool
 
 val forallb : ('a1 -> bool) -> 'a1 list -> bool
 
@@ -50,6 +66,8 @@ val filter : ('a1 -> bool) -> 'a1 list -> 'a1 list
 val combine : 'a1 list -> 'a2 list -> ('a1 * 'a2) list
 
 val firstn : nat -> 'a1 list -> 'a1 list
+
+val seq : nat -> nat -> nat list
 
 val repeat : 'a1 -> nat -> 'a1 list
 
@@ -79,6 +97,8 @@ module Pos :
 
   val compare : positive -> positive -> comparison
 
+  val eqb : positive -> positive -> bool
+
   val iter_op : ('a1 -> 'a1 -> 'a1) -> positive -> 'a1 -> 'a1
 
   val to_nat : positive -> nat
@@ -100,15 +120,29 @@ module Z :
 
   val opp : z -> z
 
+  val sub : z -> z -> z
+
   val mul : z -> z -> z
 
   val compare : z -> z -> comparison
 
+  val leb : z -> z -> bool
+
   val ltb : z -> z -> bool
+
+  val eqb : z -> z -> bool
 
   val to_nat : z -> nat
 
   val of_nat : nat -> z
+
+  val pos_div_eucl : positive -> z -> z * z
+
+  val div_eucl : z -> z -> z * z
+
+  val div : z -> z -> z
+
+  val modulo : z -> z -> z
  end
 
 type sx =
@@ -138,6 +172,8 @@ val elist : ('a1 -> sx) -> 'a1 list -> sx
 val eopt : ('a1 -> sx) -> 'a1 option -> sx
 
 val upd : 'a1 list -> nat -> 'a1 -> 'a1 list
+
+val memb : nat -> nat list -> bool
 
 val insert_uniq : nat -> nat list -> nat list
 
@@ -217,6 +253,309 @@ type 'r iter_out =
 | Modified
 
 val iter_next : 'a1 store -> iter -> iter * 'a1 iter_out
+
+type layout =
+| ExactNdarray
+| ViewOf
+| NonContiguous
+| OtherDtype
+| PyList
+
+type aval = { vbuf : nat; vw : bool; vcontig : bool; vnd : bool; vtgt : bool }
+
+val value_of_layout : nat -> layout -> aval
+
+val fresh_val : nat -> aval
+
+type var = nat
+
+type instr =
+| IAsarray of var * var * bool
+| IMove of var * var
+| IView of var * var * bool
+| IReshape of var * var
+| ICopy of var * var
+| IOp of var * var list * nat
+| IInplace of var * var list * nat
+| IReadonly of var * var
+| ISetSelf of nat * var
+| IGetSelf of var * nat
+| IReturn of var
+| IExpose of var
+
+type env = (nat * aval) list
+
+val lookup : env -> nat -> aval option
+
+val bind : env -> nat -> aval -> env
+
+val set_field : env -> nat -> aval -> env
+
+val lookups : env -> nat list -> aval list option
+
+type astate = { a_next : nat; a_env : env; a_self : env; a_mut : nat list;
+                a_ret : aval list; a_exp : aval list; a_halt : bool }
+
+val a_halted : astate -> astate
+
+val a_bind : astate -> var -> aval -> astate
+
+val a_alloc : astate -> var -> astate
+
+val view_of : aval -> bool -> aval
+
+val readonly_of : aval -> aval
+
+val asarray_aliases : aval -> bool -> bool
+
+val astep : instr -> astate -> astate
+
+val arun : instr list -> astate -> astate
+
+val n_store : nat
+
+val n_internal : nat
+
+val is_store_buf : nat -> bool
+
+val caller_buf : nat -> nat
+
+val f_solution : nat
+
+val f_objective : nat
+
+val f_measures : nat
+
+val f_threshold : nat
+
+val f_extra : nat
+
+val f_occupied : nat
+
+val f_olist : nat
+
+val f_i0 : nat
+
+val f_i1 : nat
+
+val f_i2 : nat
+
+val f_i3 : nat
+
+val f_i4 : nat
+
+val f_i5 : nat
+
+val f_i6 : nat
+
+val f_i7 : nat
+
+val f_new0 : nat
+
+val f_new1 : nat
+
+val f_new2 : nat
+
+val f_new3 : nat
+
+val f_new4 : nat
+
+val f_new5 : nat
+
+val init_self : env
+
+val init_args : nat -> layout list -> env
+
+val a_init : layout list -> astate
+
+type ep =
+| StoreAdd
+| StoreRetrieve
+| StoreData
+| StoreIter
+| StoreRaw
+| StoreOccupied
+| StoreFromRaw
+| ArchiveAdd
+| ArchiveAddSingle
+| SlidingAdd
+| SlidingAddSingle
+| ProximityAdd
+| ProximityAddSingle
+| ArchiveRetrieve
+| ArchiveRetrieveSingle
+| SampleElites
+| ArchiveData
+| BestElite
+| ArchiveIter
+| IndexOf
+| IndexOfSingle
+| CVTCtorCentroids
+| CVTCtorSamples
+| GridCtor
+| CqdScore
+| ComputeNovelty
+| GaussianCtor
+| IsoLineCtor
+| ESCtor
+| GAECtor
+| GOECtor
+| GACtor
+| BaseTell
+| ESTell
+| GAETell
+| GAETellDqd
+| GOETellDqd
+| SchedTell
+| SchedTellDqd
+| BanditTell
+| AdamCtor
+| AdamReset
+| AdamStep
+| GAscCtor
+| GAscReset
+| GAscStep
+| ParallelAxes
+| HeatmapDf
+
+val ep_of_nat : nat -> ep option
+
+val arities : ep -> nat list
+
+val n_variants : ep -> nat
+
+val t : nat -> var
+
+val validate_batch : var list -> instr list
+
+val validate_single : var -> var -> var -> instr list
+
+val store_fields : bool -> nat list
+
+val store_retrieve : var -> nat -> bool -> instr list
+
+val store_write : var -> (nat * var) list -> instr list
+
+val stats_update : var -> bool -> instr list
+
+val archive_transforms : var -> var -> var -> var option -> bool -> instr list
+
+val has_extra_arg : ep -> nat -> bool
+
+val sliding_buffer_entry :
+  bool -> var -> var -> var -> var option -> instr list
+
+val archive_add_single_core :
+  var -> var -> var -> var option -> bool -> instr list
+
+val archive_add_core :
+  var -> var -> var -> var option -> nat -> bool -> instr list
+
+val opt_ev : ep -> nat -> nat -> var option
+
+val ranker_and_opt : bool -> var list -> instr list
+
+val emitter_tell : nat -> bool -> var list -> instr list
+
+val tell_dqd : bool -> bool -> var list -> var -> instr list
+
+val emitter_start : bool -> bool -> var -> instr list
+
+val emitter_bounds : var -> instr list
+
+val sched_archive_add :
+  bool -> nat -> bool -> var -> var -> var option -> instr list
+
+val sched_emitter_slices : var -> var -> var option -> instr list
+
+val prog_gen : bool -> ep -> nat -> nat -> instr list
+
+val bufs : env -> nat list
+
+val arg_mutated : astate -> nat -> bool
+
+val arg_retained : astate -> nat -> bool
+
+val arg_returned : astate -> nat -> bool
+
+val arg_exposed : astate -> nat -> bool
+
+val rw_store : astate -> bool
+
+val ro_store : astate -> bool
+
+val rw_self : astate -> bool
+
+val exp_store : astate -> bool
+
+val row_at : 'a1 -> 'a1 store -> nat -> 'a1
+
+val column :
+  (nat -> 'a1 -> 'a2 list) -> 'a1 -> 'a1 store -> nat -> 'a2 list list
+
+val read_dict :
+  nat list -> (nat -> 'a1 -> 'a2 list) -> 'a1 -> 'a1 store -> (nat * 'a2 list
+  list) list * nat list
+
+val read_tuple :
+  nat list -> (nat -> 'a1 -> 'a2 list) -> 'a1 -> 'a1 store -> 'a2 list list
+  list * nat list
+
+val read_single :
+  (nat -> 'a1 -> 'a2 list) -> 'a1 -> 'a1 store -> nat -> 'a2 list list
+
+type 'v elite = nat * (nat * 'v list) list
+
+val transpose_rows : nat list -> (nat * 'a1 list list) list -> 'a1 elite list
+
+val elites_of_dict : ((nat * 'a1 list list) list * nat list) -> 'a1 elite list
+
+val elites_of_tuple :
+  nat list -> ('a1 list list list * nat list) -> 'a1 elite list
+
+val iter_collect :
+  nat list -> (nat -> 'a1 -> 'a2 list) -> 'a1 -> 'a1 store -> iter -> nat ->
+  'a2 elite list
+
+val read_iter :
+  nat list -> (nat -> 'a1 -> 'a2 list) -> 'a1 -> 'a1 store -> 'a2 elite list
+
+val pandas_columns :
+  'a2 -> nat list -> (nat -> nat) -> (nat -> 'a1 -> 'a2 list) -> 'a1 -> 'a1
+  store -> ((nat * nat) * 'a2 list) list
+
+val read_pandas :
+  'a2 -> nat list -> (nat -> nat) -> (nat -> 'a1 -> 'a2 list) -> 'a1 -> 'a1
+  store -> ((nat * nat) * 'a2 list) list * nat list
+
+val df_get_field :
+  'a1 -> (((nat * nat) * 'a1 list) list * nat list) -> nat -> 'a1 list list
+
+val df_iterelites :
+  'a1 -> nat list -> (((nat * nat) * 'a1 list) list * nat list) -> 'a1 elite
+  list
+
+val dlayout : sx -> layout option
+
+val effects : astate -> nat -> sx
+
+val run_alias : bool -> sx -> sx -> sx -> sx
+
+val rp_fields : nat list
+
+val rp_dim : nat -> nat
+
+val rp_proj : nat -> z -> z list
+
+val dec_field : nat -> z list -> z
+
+val dec_elite : z elite -> sx
+
+val rp_run : z store -> sx list -> z store option
+
+val run_readpaths : sx -> sx -> sx
+
+val run_C12 : sx -> sx
 
 val err_code : err -> z
 
